@@ -103,6 +103,16 @@ func runC06(c c06Case, r *rep.Report) (key, msg string, stats map[string]int64) 
 			}
 			w := rig.NewWorld(rig.Options{Server: so})
 			defer w.Finish()
+			// the caller goes on using its options object (to build another server, say): the
+			// effective configuration of THIS server was fixed when it was constructed
+			so.SetPingInterval(time.Duration(c.PIms)*time.Millisecond + 777*time.Millisecond)
+			so.SetPingTimeout(time.Duration(c.PTms)*time.Millisecond + 555*time.Millisecond)
+			so.SetMaxHttpBufferSize(c.MaxPayload + 4242)
+			so.SetAllowUpgrades(!c.AllowUpg)
+			so.SetAllowEIO3(!c.AllowEIO3)
+			so.SetTransports(types.NewSet("polling"))
+			so.SetInitialPacket(nil)
+			stats["servers_whose_options_object_was_changed_after_construction"]++
 			enabled := map[string]bool{}
 			for _, t := range c.Transports {
 				enabled[t] = true
